@@ -16,10 +16,14 @@ def run(rep, tier, seed):
         rep.checker_error(f'rank tables disagree with CPython positions: {v2}')
     verify_all(rep, specs + k_traverse.special_specs('C14') + k_traverse.soc_specs('C14'))
     rep.extra['not_proved'] = notes
+    k_traverse.all_param_finite(rep, 'C14')
     rep.trusted.append('ORDER table (syntactic field order per AST class) written from the grammar; validated against '
                        'CPython (lineno, col_offset) order on every node of the corpus on every run')
-    sec = native.run('b_read', 'main', {'props': ['C14'], 'tier': tier, 'seed': seed}, timeout=7200)
+    sec = native.run('b_read', 'main', {'props': ['C14'], 'tier': tier, 'seed': seed,
+                                        'interleave': 4 if tier == 'quick' else 5}, timeout=7200)
     sec['native_entry'] = ('b_read', 'replay')
     rep.bounded(sec)
-    rep.remainder = ('the walk generator itself and the position-merging step functions of Call / ClassDef / Dict / '
-                     '(Dict / MatchMapping / Compare / arguments ARE proved, by the rank-order specification): bounded stand-in only')
+    rep.remainder = ('the walk generator itself and the position-merging step functions of Call / ClassDef (Dict / '
+                     'MatchMapping / Compare / arguments ARE proved, by the rank-order specification): bounded stand-in '
+                     'only - exhaustive over every argument-like sequence CPython accepts up to length 4 (quick) / 5 '
+                     '(thorough) for calls and class bases, plus the corpus')
